@@ -63,8 +63,11 @@ def _get_shortest_public_reexport(
         if len(qname_parts) > 2:
             parent_name = qname_parts[-2]
 
-    def _module_name_check(text: str, is_wildcard: bool = False) -> bool:
+    def _module_name_check(text: str, is_wildcard: bool = False, source_id: str = "") -> bool:
         if is_module:
+            if qname and source_id:
+                # The import has to be the module, either absolute or relative to the package of the source
+                return qname in {text, f"{source_id.replace('/', '.')}.{text}"}
             return text.endswith(f".{name}") or text == name
         elif is_wildcard:
             return text.endswith(f".{parent_name}") or text == parent_name
@@ -82,14 +85,14 @@ def _get_shortest_public_reexport(
         for module in reexport_map[key]:
 
             for qualified_import in module.qualified_imports:
-                if _module_name_check(qualified_import.qualified_name):
+                if _module_name_check(qualified_import.qualified_name, source_id=module.id):
                     # An import under an internal alias does not reexport anything
                     if qualified_import.alias is None or not is_internal(qualified_import.alias):
                         module_ids.add((module.id, qualified_import.alias))
                     break
 
             for wildcard_import in module.wildcard_imports:
-                if _module_name_check(wildcard_import.module_name, is_wildcard=True):
+                if _module_name_check(wildcard_import.module_name, is_wildcard=True, source_id=module.id):
                     module_ids.add((module.id, None))
                     break
 
